@@ -14,6 +14,7 @@ import (
 	"fmt"
 	"hash/maphash"
 	"os"
+	"os/signal"
 	"runtime"
 	"runtime/debug"
 	"sort"
@@ -341,6 +342,15 @@ func Main(body func(c *Ctx)) {
 		go memoryWatch(*memQuota)
 	}
 
+	// The driver's governor asks the largest worker to end itself when all
+	// workers together hold too much memory.
+	usr1 := make(chan os.Signal, 1)
+	signal.Notify(usr1, syscall.SIGUSR1)
+	go func() {
+		<-usr1
+		dieOfMemory("aborted by the driver, the workers together held too much memory")
+	}()
+
 	c := &Ctx{
 		Tier:      *tier,
 		Shard:     *shard,
@@ -453,11 +463,15 @@ func memoryWatch(quota int64) {
 			continue
 		}
 
-		buf := make([]byte, 1<<20)
-		buf = buf[:runtime.Stack(buf, true)]
-		fmt.Fprintf(os.Stderr, "fatal error: memory quota exceeded: %d MiB resident, quota %d MiB\n\n%s\n", pages*page>>20, quota>>20, buf)
-		os.Exit(3)
+		dieOfMemory(fmt.Sprintf("%d MiB resident, quota %d MiB", pages*page>>20, quota>>20))
 	}
+}
+
+func dieOfMemory(why string) {
+	buf := make([]byte, 1<<20)
+	buf = buf[:runtime.Stack(buf, true)]
+	fmt.Fprintf(os.Stderr, "fatal error: memory quota exceeded: %s\n\n%s\n", why, buf)
+	os.Exit(3)
 }
 
 // cpuTime is the CPU time (user + system) consumed by this process so far.
